@@ -143,6 +143,15 @@ pub(crate) async fn greet_exchange(raw_socket: &mut FramedIo) -> ZmqResult<ZmtpV
     negotiate_version(greeting)
 }
 
+/// A property of a READY command. RFC 23: "The case (upper or lower) of names SHALL NOT be
+/// significant."
+fn property<'a>(properties: &'a HashMap<String, Bytes>, name: &str) -> Option<&'a Bytes> {
+    properties
+        .iter()
+        .find(|(key, _)| key.eq_ignore_ascii_case(name))
+        .map(|(_, value)| value)
+}
+
 pub(crate) async fn ready_exchange(
     raw_socket: &mut FramedIo,
     socket_type: SocketType,
@@ -158,14 +167,12 @@ pub(crate) async fn ready_exchange(
     match ready_repl {
         Some(Ok(Message::Command(command))) => match command.name {
             ZmqCommandName::READY => {
-                let other_sock_type = match command.properties.get("Socket-Type") {
+                let other_sock_type = match property(&command.properties, "Socket-Type") {
                     Some(s) => SocketType::try_from(&s[..])?,
                     None => Err(ZmqError::Other("Failed to parse other socket type"))?,
                 };
 
-                let peer_id = command
-                    .properties
-                    .get("Identity")
+                let peer_id = property(&command.properties, "Identity")
                     .map(|x| x.clone().try_into())
                     .transpose()?
                     .unwrap_or_default();
